@@ -510,6 +510,49 @@ func TestScenarioLMTPEarlyStatuses(t *testing.T) {
 	e.finish(true)
 }
 
+// Close does not wait for a backend callback that is still running (it cannot be woken by closing the
+// socket): Close returns, Serve returns, and the handler ends when the callback returns
+func TestScenarioCloseWhileCallbackBlocked(t *testing.T) {
+	be := newScBackend()
+	hold := make(chan struct{})
+	be.holdRet[0] = hold
+	e := scStart(t, be, false)
+	e.send("EHLO x\r\n")
+	e.expect("250")
+	e.send("MAIL FROM:<a@b>\r\n")
+	e.expect("250")
+	e.send("RCPT TO:<c@d>\r\n")
+	e.expect("250")
+	e.send("DATA\r\n")
+	e.expect("354")
+	e.send("a message\r\n.\r\n")
+	e.waitK(be.readDone, "the backend did not read the message")
+	ret := make(chan error, 1)
+	go func() { ret <- e.s.Close() }()
+	select {
+	case err := <-ret:
+		if err != nil {
+			t.Errorf("Close: %v", err)
+		}
+	case <-time.After(3 * time.Second):
+		close(hold)
+		e.hang("Server.Close waits for a backend callback in progress (it did not return within 3 s)")
+	}
+	select {
+	case err := <-e.serveRet:
+		if err != nil {
+			t.Errorf("Serve returned %v", err)
+		}
+		e.serveRet <- err
+	case <-time.After(scWatchdog):
+		close(hold)
+		e.hang("Serve did not return after Close")
+	}
+	close(hold)
+	go io.Copy(io.Discard, e.r)
+	e.finish(false)
+}
+
 // Shutdown waits for the connection; the context ends the wait
 func TestScenarioShutdownMidBdat(t *testing.T) {
 	be := newScBackend()
